@@ -16,7 +16,8 @@ OPS = {
     "ratio_reduce": {}, "ratio_distribute": {"res": True}, "collapse_widths": {"res": True},
     "table_widths": {"res": True},
     "table_render": {"spec_only": True},
-    "leading_multiplied": {},
+    "cells_raw": {"spec_only": True},     # only as the witness of the known finding C07-ratio-column-one-cell
+    "leading_multiplied": {}, "flexmin_measured": {},
 }
 
 BOX_NAMES = ["ASCII", "ASCII2", "ASCII_DOUBLE_HEAD", "SQUARE", "SQUARE_DOUBLE_HEAD", "MINIMAL",
@@ -265,7 +266,7 @@ def smin(desc):
 def generate(rng, tier):
     THOROUGH[0] = tier == "thorough"
     k = 1 if tier == "quick" else 25
-    cases = [("leading_multiplied", [])]
+    cases = [("leading_multiplied", []), ("flexmin_measured", [])]
     # ---- rounding primitives: exhaustive small domain + values near the 2^26 bound
     for n in range(-40, 41):
         for d in range(1, 13):
@@ -405,6 +406,14 @@ def impl(op, arg):
         t.add_row("2")
         lines = render_text_lines(console(20), t)
         return 1 if len(lines) == 6 else 0
+    if op == "flexmin_measured":
+        # behavioural twin of the T3 fact gen/BoxChars.FLEXMIN_MEASURED
+        from rich.table import Table, Column
+        t = Table(Column("", ratio=1), Column(""), box=None, padding=0, expand=True, show_header=False)
+        t.add_row("\u4e2d", "dC d ddC\u4e2ddd dCCdd " * 4)
+        return 1 if t._calculate_column_widths(console(20), 20) == [2, 18] else 0
+    if op == "cells_raw":
+        op = "table_render"
     desc = sanitize(arg)
     opts, bx, cols, rows, W, extras = desc
     con = console(W)
@@ -472,6 +481,18 @@ def spec_cases(op, arg, out):
         widths, wrap, mw = arg
         if len(widths) == len(wrap) and all(w >= 0 for w in widths):
             res.append(("spec.collapse_ok", [widths, wrap, mw, out[1]]))
+    if op == "cells_raw":
+        # the property's statement without the theorem's per-column hypothesis (cell_room): every fold,
+        # wrapping column is held to "all its characters, in order, inside its span"
+        desc = sanitize(arg)
+        opts, bx, cols, rows, W, extras = desc
+        widths, out_rows, body, annot_ok = out
+        colspec = []
+        for j in range(len(cols)):
+            fold = cols[j][6] == FOLD and not cols[j][4]
+            chars = [ord(c) for t in column_texts(desc, j) for c in t if not c.isspace()]
+            colspec.append([1 if fold else 0, 0, padding_width(desc, j), chars])
+        return [("spec.cells_in_columns", [bx, opts[1], [STALE, opts, model_cols(desc), W], colspec, body])]
     if op == "table_render":
         desc = sanitize(arg)
         opts, bx, cols, rows, W, extras = desc
@@ -500,25 +521,55 @@ def spec_cases(op, arg, out):
         # "every row is met" is demanded under the hypotheses of C07_cell_chars_in_own_column: fold, not
         # no_wrap, and room for one character of the column's cells (2 cells when a double-width one
         # occurs) inside the padding -- a ratio column can be squeezed to one cell at any W (notes)
+        # "every row is met" / "all characters of a fold column" are demanded of every table at W >= smin
+        # except the class of known finding C07-ratio-column-one-cell (a ratio column whose content needs
+        # more cells than the (width or 1) the solver guarantees it): there only under the theorem's
+        # per-column hypothesis (cell_room)
         def need(j):
             return 2 if any(c in WIDE for t in column_texts(desc, j) for c in t) else 1
+
+        # a column with BOTH ratio and an explicit width (outside C07's column options) takes its ratio
+        # share beyond that width and is then not collapsible: its neighbours can be squeezed below one
+        # character although the table is above the structural minimum computed from the widths
+        ratio_and_width = any(c[0] and c[3] for c in cols)
+
+        def in_known_class(j):
+            if ratio_and_width:
+                return True
+            # ... or the user capped the column below one character of its cells (width / max_width)
+            capped = (cols[j][0] and cols[j][0][0] < need(j)) or (cols[j][2] and cols[j][2][0] < need(j))
+            return bool(capped) or (bool(cols[j][3]) and need(j) > (cols[j][0][0] if cols[j][0] else 1))
         all_fold = all(c[6] == FOLD and not c[4] for c in cols) \
             and all(len(rs) == len(cl) for rs, cl in zip(rowsets, classes)) \
-            and all(widths[j] - padding_width(desc, j) >= need(j) for j in range(n))
+            and all(widths[j] - padding_width(desc, j) >= need(j) for j in range(n) if in_known_class(j))
         res.append(("spec.rows_ordered", [classes, 1 if all_fold else 0, body]))
         colspec = []
         for j in range(n):
             fold = cols[j][6] == FOLD and not cols[j][4]
-            need = 2 if any(c in WIDE for t in column_texts(desc, j) for c in t) else 1
             chars = [ord(c) for t in column_texts(desc, j) for c in t if not c.isspace()]
-            colspec.append([1 if fold else 0, need, padding_width(desc, j), chars])
+            colspec.append([1 if fold else 0, need(j) if in_known_class(j) else 0, padding_width(desc, j), chars])
         res.append(("spec.cells_in_columns", [bx, opts[1], [STALE, opts, model_cols(desc), W], colspec, body]))
     return res
 
 
+def known_ratio_column_min(op, arg):
+    """matcher of known finding C07-ratio-column-one-cell: a table with a ratio column whose content
+    needs more cells than the `(width or 1)` the solver guarantees it (a double-width character in
+    a ratio column without an explicit width >= 2)"""
+    if op not in ("table_render", "table_widths", "cells_raw"):
+        return False
+    desc = sanitize(arg)
+    for j, col in enumerate(desc[2]):
+        if col[3]:
+            need = 2 if any(c in WIDE for t in column_texts(desc, j) for c in t) else 1
+            if need > (col[0][0] if col[0] else 1):
+                return True
+    return False
+
+
 def describe(op, arg):
     try:
-        if op in ("table_widths", "table_render"):
+        if op in ("table_widths", "table_render", "cells_raw"):
             opts, bx, cols, rows, W, extras = sanitize(arg)
             return (f"Table {len(cols)} cols x {len(rows)} rows, box={BOX_NAMES[bx[0]] if bx else None}, W={W}, "
                     f"expand={opts[9]} width={opts[10]} min_width={opts[11]} leading={opts[5]} padding={opts[6]}")
